@@ -23,7 +23,8 @@ def harness(name, jobs, sym, conc, descr=""):
 def cells(a):
     """flat list of the cells of an ndarray / scalar (z3 terms or python values)"""
     if hasattr(a, "_cells"):
-        return list(a._cells())
+        # bit patterns of Int-represented data (uninterpreted bijection, DESIGN 3.3) are observed as numbers
+        return [np._bv_to_int(c) if np._is_bits_term(c) else c for c in a._cells()]
     if hasattr(a, "val") and hasattr(a, "weak"):      # shim scalar / symbolic python scalar
         return [a.val]
     a = np.asarray(a)
